@@ -106,19 +106,29 @@ ProbeOk(f, dest) ==
 RequeueFd(qq, fd, err) ==
   [id \in DOMAIN qq |-> IF qq[id].st = "inflight" /\ qq[id].fd = fd THEN Requeued(qq[id], TRUE, err) ELSE qq[id]]
 
+(* The notification of a server failure and the effect of the failure (re-transmission / completion) are not
+   ordered by any property: a query whose deadline has passed may be re-sent or completed before the
+   failure notification of its server is seen; the notification is then owed (owedF). *)
+TimedOutNow(id) == /\ id \in DOMAIN q /\ q[id].st = "inflight" /\ proc.in /\ proc.nonfd /\ now >= q[id].dlo
+
 HSendFrame(e, f) ==
   LET fd == e.fd
       dest == fdi[fd].srv
       isnew == f.qid \notin DOMAIN q
       isprobe == isnew /\ Live(f.t, f.qt) # {}
-      rec == IF isnew THEN NewRec(f, fd, isprobe) ELSE q[f.qid]
+      timed == ~isnew /\ TimedOutNow(f.qid)
+      sv1 == IF timed THEN FailServerIn(srv, q[f.qid].srv) ELSE srv
+      owed1 == IF timed THEN [owedF EXCEPT ![q[f.qid].srv] = @ + 1] ELSE owedF
+      rec == IF isnew THEN NewRec(f, fd, isprobe)
+             ELSE IF timed THEN Requeued([q[f.qid] EXCEPT !.to = @ + 1], TRUE, "ETIMEOUT")
+             ELSE q[f.qid]
       tcpfd == fdi[fd].tcp
   IN
   IF f.bad = 1 THEN Rej("c06.malformed_transmission")
   ELSE IF rec.st # "tosend" THEN Rej("c06.unsolicited_retransmission")
   ELSE IF isprobe /\ ~ProbeOk(f, dest) THEN Rej("c09.extra_copy_not_a_legal_probe")
   ELSE IF ~isprobe /\ rec.reqsrv # 0 /\ rec.reqsrv # dest THEN Rej("c06.downgrade_resend_wrong_server")
-  ELSE IF ~isprobe /\ rec.reqsrv = 0 /\ ~FreshChoiceOk(dest) THEN
+  ELSE IF ~isprobe /\ rec.reqsrv = 0 /\ ~FreshChoiceOkIn(sv1, dest) THEN
        Rej(IF rec.try = 0 /\ rec.ntx = 0 THEN "c09.first_attempt_not_to_best_server" ELSE "c09.retry_not_to_best_server")
   ELSE IF rec.tcp /\ ~tcpfd THEN Rej("c06.tcp_query_sent_over_udp")
   ELSE IF ~rec.edns /\ f.edns = 1 THEN Rej("c06.edns_sent_after_downgrade")
@@ -129,16 +139,17 @@ HSendFrame(e, f) ==
                              !.sentopts = (f.clen > 0), !.reqsrv = 0]
        IN IF r2.ntx > MaxTries + 5 THEN Rej("c06.budget_exceeded")
           ELSE /\ q' = (IF isnew THEN q @@ (f.qid :> r2) ELSE [q EXCEPT ![f.qid] = r2])
-               /\ UNCHANGED <<cfg, now, srv, fdi, owedF, owedO, proc, oos, xvars>> /\ Acc
+               /\ srv' = sv1 /\ owedF' = owed1
+               /\ UNCHANGED <<cfg, now, fdi, owedO, proc, oos, xvars>> /\ Acc
   ELSE IF e.res = "err" THEN
        \* the write failed: the connection is a critical failure for its server; everything on it and the
        \* query being written are requeued with one more try
-       LET q1 == IF isnew THEN q @@ (f.qid :> rec) ELSE q
+       LET q1 == IF isnew THEN q @@ (f.qid :> rec) ELSE [q EXCEPT ![f.qid] = rec]
            q2 == RequeueFd(q1, fd, "ECONNREFUSED")
            q3 == [q2 EXCEPT ![f.qid] = Requeued([rec EXCEPT !.srv = dest], TRUE, "ECONNREFUSED")]
        IN /\ q' = DropDoneProbes(q3)
-          /\ srv' = FailServer(dest)
-          /\ owedF' = [owedF EXCEPT ![dest] = @ + 1]
+          /\ srv' = FailServerIn(sv1, dest)
+          /\ owedF' = [owed1 EXCEPT ![dest] = @ + 1]
           /\ UNCHANGED <<cfg, now, fdi, owedO, proc, oos, xvars>> /\ Acc
   ELSE OutOfScope
 
@@ -264,16 +275,17 @@ HSrv(e) ==
        \* that has not transmitted anything yet
        LET waiting == {id \in DOMAIN q : q[id].st = "tosend" /\ ~q[id].tcp}
            fresh == {t \in DOMAIN newtry : Live(t, 1) = {} /\ \A id \in DOMAIN q : q[id].t # t}
+           wok == {id \in waiting : IF q[id].reqsrv # 0 THEN q[id].reqsrv = e.s ELSE FreshChoiceOk(e.s)}
        IN IF waiting # {} THEN
-               \E id \in waiting :
-                  /\ (IF q[id].reqsrv # 0 THEN q[id].reqsrv = e.s ELSE FreshChoiceOk(e.s))
+               IF wok = {} THEN Rej("c09.connection_attempt_not_to_best_server")
+               ELSE \E id \in wok :
                   /\ srv' = FailServer(e.s)
                   /\ q' = DropDoneProbes([q EXCEPT ![id] = Requeued(q[id], TRUE, "ECONNREFUSED")])
                   /\ openfail' = FALSE
                   /\ UNCHANGED <<cfg, now, fdi, owedF, owedO, proc, oos, toks, tcpin, newtry>> /\ Acc
           ELSE IF fresh # {} THEN
-               \E t \in fresh :
-                  /\ FreshChoiceOk(e.s)
+               IF ~FreshChoiceOk(e.s) THEN Rej("c09.connection_attempt_not_to_best_server")
+               ELSE \E t \in fresh :
                   /\ srv' = FailServer(e.s)
                   /\ newtry' = [newtry EXCEPT ![t] = @ + 1]
                   /\ openfail' = FALSE
@@ -295,7 +307,17 @@ HCbb(e) ==
        /\ UNCHANGED <<cfg, now, srv, fdi, owedF, owedO, proc, oos, xvars>> /\ Acc
   ELSE IF ids = {} THEN Skip
   ELSE LET done == {id \in ids : q[id].st = "ending"} IN
-       IF done = {} THEN Rej("c06.completed_without_cause." \o e.st)
+       IF done = {} THEN
+            \* a query whose deadline passed may be completed before its server's failure notification is seen
+            LET cand == {id \in ids : TimedOutNow(id) /\
+                            LET r2 == Requeued([q[id] EXCEPT !.to = @ + 1], TRUE, "ETIMEOUT")
+                            IN r2.st = "ending" /\ r2.endst = e.st /\ r2.to = e.to}
+            IN IF cand = {} THEN Rej("c06.completed_without_cause." \o e.st)
+               ELSE LET id == CHOOSE x \in cand : TRUE IN
+                    /\ srv' = FailServer(q[id].srv)
+                    /\ owedF' = [owedF EXCEPT ![q[id].srv] = @ + 1]
+                    /\ q' = Without(q, {id})
+                    /\ UNCHANGED <<cfg, now, fdi, owedO, proc, oos, xvars>> /\ Acc
        ELSE LET id == CHOOSE x \in done : TRUE IN
             IF q[id].endst # e.st THEN Rej("c06.completion_status." \o e.st \o ".expected." \o q[id].endst)
             ELSE IF q[id].to # e.to THEN Rej("c06.timeouts_reported_wrong")
